@@ -35,17 +35,22 @@ func PathFor(in interface{}) (string, error) {
 		return "", errors.New("can not calculate path to nil")
 	}
 
-	if rv := reflect.ValueOf(in); rv.Kind() == reflect.Ptr && rv.IsNil() {
-		return "", fmt.Errorf("can not calculate path to nil %T", in)
-	}
-
 	switch s := in.(type) {
 	case string:
 		return join(s), nil
 	case template.HTML:
 		return join(string(s)), nil
 	case Pathable:
-		return join(s.ToPath()), nil
+		// a ToPath that can not be called - through a nil pointer, when it
+		// is implemented on the value type, or promoted from an embedded
+		// pointer or interface that is nil - leaves the other rules
+		if p, ok := textOf(s.ToPath); ok {
+			return join(p), nil
+		}
+	}
+
+	if rv := reflect.ValueOf(in); rv.Kind() == reflect.Ptr && rv.IsNil() {
+		return "", fmt.Errorf("can not calculate path to nil %T", in)
 	}
 
 	ni, err := name.Interface(in)
@@ -54,6 +59,7 @@ func PathFor(in interface{}) (string, error) {
 	}
 
 	rv := reflect.Indirect(reflect.ValueOf(in))
+	var unreachable error
 
 	to := rv.Type()
 	k := to.Kind()
@@ -67,7 +73,9 @@ func PathFor(in interface{}) (string, error) {
 			// the field may be promoted from an embedded pointer that is nil
 			f, err := rv.FieldByIndexErr(sf.Index)
 			if err != nil {
-				return "", fmt.Errorf("could not convert %T to path: %w", in, err)
+				// out of reach, like a field the struct does not have
+				unreachable = err
+				continue
 			}
 			return byField(ni, f)
 		}
@@ -85,10 +93,26 @@ func PathFor(in interface{}) (string, error) {
 	}
 
 	if s, ok := in.(Paramable); ok {
-		return join(ni.URL().String(), s.ToParam()), nil
+		if p, ok := textOf(s.ToParam); ok {
+			return join(ni.URL().String(), p), nil
+		}
 	}
 
+	if unreachable != nil {
+		return "", fmt.Errorf("could not convert %T to path: %w", in, unreachable)
+	}
 	return "", fmt.Errorf("could not convert %T to path", in)
+}
+
+// textOf calls a value's own ToPath or ToParam method; ok is false when the
+// call panics.
+func textOf(method func() string) (s string, ok bool) {
+	defer func() {
+		if recover() != nil {
+			s, ok = "", false
+		}
+	}()
+	return method(), true
 }
 
 func byField(ni name.Ident, f reflect.Value) (string, error) {
